@@ -50,6 +50,12 @@ def check(repo: Repo) -> Result:
     homomorphism(repo, res)
     ratio_direction(repo, res)
     filed_scales(repo, res)
+
+    from rules import c11
+    from rules.common import share
+
+    r6 = res.rule("C02-R6", "a registry rebuilt from a saved or copied table (deep copy, pickle, HDF5, JSON) keeps the scales of that table: the defaults are not re-added over it (shared with C11-R3)", floor=4)
+    share(res, r6, "C11", lambda t: c11.rebuilt_from_table(repo, t), ["C11-R3"], want=lambda k: k.endswith(":no-defaults"), min_keys=4)
     return res
 
 
@@ -477,4 +483,5 @@ MUTANTS = [
     Mutant("define-unit-in-mks", UO, "define_unit", 'value.in_base(unit_system="mks")', "value.in_mks()", (), benign=True),
     Mutant("modify-default-system", REG, "UnitRegistry.modify", 'base_value.in_base("mks")', "base_value.in_base()", ("C02-R5",)),
     Mutant("purge-divides-prefix-out", REG, "UnitRegistry._forget_prefixed", "and derived[:3] == (entry[0] * prefix_value, entry[1], entry[2])", "and (derived[0] / prefix_value, derived[1], derived[2]) == entry[:3]", ("C02-R2",)),
+    Mutant("deepcopy-readds-defaults", "unyt/unit_registry.py", "UnitRegistry.__deepcopy__", "add_default_symbols=False, lut=lut, unit_system=self.unit_system", "lut=lut, unit_system=self.unit_system", ("C02-R6",)),
 ]
